@@ -31,6 +31,35 @@ func meteringEdges(w *core.World) map[string][]string {
 				}
 				key := core.DeclKey(p, fd)
 				set := map[string]bool{}
+				// local variables holding a usage: `u := common.NewXMemoryUsage(kind); common.UseMemory(g, u)`
+				localDefs := map[types.Object][]ast.Expr{}
+				ast.Inspect(fd.Body, func(n ast.Node) bool {
+					switch st := n.(type) {
+					case *ast.AssignStmt:
+						if len(st.Lhs) == len(st.Rhs) {
+							for i, l := range st.Lhs {
+								if id, ok := l.(*ast.Ident); ok {
+									obj := info.Defs[id]
+									if obj == nil {
+										obj = info.Uses[id]
+									}
+									if obj != nil {
+										localDefs[obj] = append(localDefs[obj], st.Rhs[i])
+									}
+								}
+							}
+						}
+					case *ast.ValueSpec:
+						if len(st.Names) == len(st.Values) {
+							for i, id := range st.Names {
+								if obj := info.Defs[id]; obj != nil {
+									localDefs[obj] = append(localDefs[obj], st.Values[i])
+								}
+							}
+						}
+					}
+					return true
+				})
 				ast.Inspect(fd.Body, func(n ast.Node) bool {
 					call, ok := n.(*ast.CallExpr)
 					if !ok {
@@ -49,7 +78,8 @@ func meteringEdges(w *core.World) map[string][]string {
 					if callee.Name() != "UseComputation" && callee.Name() != "UseMemory" {
 						return true
 					}
-					for _, a := range call.Args[1:] {
+					var visitArg func(a ast.Node, depth int)
+					visitArg = func(a ast.Node, depth int) {
 						ast.Inspect(a, func(m ast.Node) bool {
 							id, ok := m.(*ast.Ident)
 							if !ok {
@@ -58,6 +88,11 @@ func meteringEdges(w *core.World) map[string][]string {
 							obj := info.Uses[id]
 							if obj == nil || obj.Pkg() == nil {
 								return true
+							}
+							if defs, isLocal := localDefs[obj]; isLocal && depth < 3 {
+								for _, d := range defs {
+									visitArg(d, depth+1)
+								}
 							}
 							switch o := obj.(type) {
 							case *types.Const:
@@ -75,6 +110,9 @@ func meteringEdges(w *core.World) map[string][]string {
 							}
 							return true
 						})
+					}
+					for _, a := range call.Args[1:] {
+						visitArg(a, 0)
 					}
 					return true
 				})
